@@ -1158,6 +1158,9 @@ def tasks(tier):
         out.append(("api-%d" % k, task_api, dict(n=6000, depth=k % 3)))
     out.append(("series", task_series, dict(n=6000, depth=1)))
     out.append(("unit-sweep", task_unit_sweep, dict()))
+    # coverage-guided tier (pbt/fuzz.py): libFuzzer drives the strategies and oracles of these tasks
+    from .. import fuzz
+    fuzz.extend(out, PROPERTY, ['strings-1'])
     return out
 
 
